@@ -186,6 +186,23 @@ class Row(object):
 
 ROWS = {}
 
+# named generator paths that reach confirmed defects; everything they produce is excluded from
+# the bulk generator by construction (also where the same field kind occurs nested)
+PROBES = {
+    "nonascii": "non-ASCII text (TextString cannot encode it); all other text leaves are ASCII",
+    "interval_max": "Interval value 2**32 (accepted by validate(), rejected by write())",
+    "drop_reader_req": "fields the writer tolerates missing while the reader demands them / "
+                       "reads them back as a different value (always supplied in bulk)",
+    "empty_list": "empty attribute list of Template (writer emits it, reader demands one item)",
+    "attr20_undecodable": "KMIP 2.0 attribute values the by-tag factory cannot create "
+                          "(Certificate Type, Always Sensitive, Extractable, Never Extractable, "
+                          "Original Creation Date); left out of every 2.0 attribute set",
+    "unregistered_op": "batch items carrying payload classes the message factories do not "
+                       "register (Archive, Cancel, GetUsageAllocation, ObtainLease, Poll, Recover)",
+    "empty_text": "empty unique identifier of GetResponsePayload (write() reports it missing)",
+    "correlation_value": "ResponseHeader.server_correlation_value (never written by write())",
+}
+
 
 def _row(name, path, fields, **kw):
     ROWS[name] = Row(name, path, fields, **kw)
@@ -1103,7 +1120,10 @@ def _draw_kind(draw, kind, v, ctx, depth, fields):
         return {"cls": kind.row, "fields": sub}
     if isinstance(kind, Lst):
         hi = kind.hi if depth <= 1 else min(kind.hi, max(kind.lo, 2))
-        n = draw(st.one_of(st.just(kind.lo), st.integers(kind.lo, hi)))
+        sizes = [st.just(kind.lo), st.integers(kind.lo, hi), st.integers(kind.lo, hi)]
+        if depth <= 2 and kind.hi > 0:
+            sizes.append(st.integers(hi, hi + 4))      # the occasional longer list
+        n = draw(st.one_of(*sizes))
         return [_draw_kind(draw, kind.item, v, ctx, depth, fields) for _ in range(n)]
     if isinstance(kind, AttrVal):
         names = attr_names_for(v, ctx | {"conv20"})
